@@ -53,6 +53,39 @@ def handler_of(fi, site_ast):
     return out
 
 
+def _raw_helper_invocations(prog):
+    """names of functions / methods of the server module (as written, before helper expansion) that _dispatch calls inside a
+    try with a TypeError handler, handing them a value that they call: the registered callable then runs one frame deeper"""
+    raw = ast.parse(prog.modules[SRV].text)
+    funcs = {}
+    disp = None
+    for st in raw.body:
+        if isinstance(st, ast.FunctionDef):
+            funcs[st.name] = st
+        elif isinstance(st, ast.ClassDef):
+            for m in st.body:
+                if isinstance(m, ast.FunctionDef):
+                    funcs[m.name] = m
+                    if st.name == DISP and m.name == "_dispatch":
+                        disp = m
+    out = []
+    if disp is None:
+        return out
+    for t in ast.walk(disp):
+        if not (isinstance(t, ast.Try) and any(h.type is not None and "TypeError" in dump(h.type) for h in t.handlers)):
+            continue
+        for c in [x for st_ in t.body for x in ast.walk(st_) if isinstance(x, ast.Call)]:
+            nm = c.func.attr if isinstance(c.func, ast.Attribute) and isinstance(c.func.value, ast.Name) and c.func.value.id in ("self", DISP) \
+                else (c.func.id if isinstance(c.func, ast.Name) else None)
+            h = funcs.get(nm)
+            if h is None or h is disp:
+                continue
+            params = [a.arg for a in h.args.args]
+            if any(isinstance(x, ast.Call) and isinstance(x.func, ast.Name) and x.func.id in params for x in ast.walk(h)):
+                out.append(nm)
+    return out
+
+
 def try_calls(prog, fi, t, pred):
     for st in t.body:
         for c in ast.walk(st):
@@ -363,7 +396,7 @@ def check(ck):
             continue
         for (t, h) in handler_of(fd, c)[:1]:
             enclosed = [cc for (nn, cc, _t) in func_calls if any(sub is cc for st in t.body for sub in ast.walk(st))]
-            ck.require(not enclosed, "C05.5", "%s: except TypeError around %s" % (q.fn(fd), ", ".join(sorted(set(dump(x) for x in enclosed))) or "-"),
+            ck.require(not enclosed, "C05.5", "%s: the -32602 handler (except TypeError) encloses the invocation of the looked-up callable" % q.fn(fd),
                        "-32602 handler does not enclose the method body",
                        "the try whose TypeError handler answers -32602 encloses the execution of the method itself: a "
                        "TypeError raised inside the method (e.g. 1 + 'a') is reported as invalid parameters instead of -32603",
@@ -376,12 +409,15 @@ def check(ck):
         for (t, h) in handler_of(fd, site.call)[:1]:
             reraise = [x for st_ in h.body for x in ast.walk(st_) if isinstance(x, ast.Raise)]
             via_helper = [hc for (n, c, helper, hc) in invs if helper is not None]
+            # frames are a property of the source as written: look at the module before helper expansion as well
+            via_helper += _raw_helper_invocations(prog)
             if reraise:
                 ck.require(not via_helper, "C05.7", "%s: -32602 handler re-raises selectively while the call sits in a helper" % q.fn(fd),
                            "the call expression is in _dispatch's own frame",
                            "the TypeError handler re-raises depending on the traceback, and the registered callable is invoked one frame deeper "
                            "(through %s): a genuine argument mismatch is raised inside that helper, classified as an error of the method and "
-                           "answered -32603 instead of -32602" % ", ".join(sorted(set(helper.qual for (_n, _c, helper, _h) in invs if helper is not None))),
+                           "answered -32603 instead of -32602" % ", ".join(sorted(set([helper.qual for (_n, _c, helper, _h) in invs if helper is not None] +
+                                                                                       [x for x in via_helper if isinstance(x, str)]))),
                            q.loc(fd, h))
             else:
                 ck.ok("C05.7", "%s: the -32602 handler answers every TypeError of the call" % q.fn(fd), "no selective re-raise", q.loc(fd, h))
